@@ -665,11 +665,15 @@ def _history_window_table(ctx: Ctx, rel: str):
                             and x.func.value.id in names[2:6]:
                         return {names[2]: O, names[3]: O + G - U, names[4]: O + G, names[5]: O}[x.func.value.id]
                     return None
+                iv = [int(v_) for v_ in np.asarray(idx).reshape(-1).tolist()]
+                idx_before, hist_before = list(iv), env[names[0]].tolist()
+                iv = iv * B if len(iv) == 1 else iv
                 kind, got = Interp(leaf=leaf, tensors=True).run(head, env)
                 rows += 1
                 padded = np.concatenate([np.full((N - 1, B), SOS), hist], 0)
-                iv = [int(v_) for v_ in np.asarray(idx).reshape(-1).tolist()]
-                iv = iv * B if len(iv) == 1 else iv
+                if kind == "return" and ([int(v_) for v_ in np.asarray(idx).reshape(-1).tolist()] != idx_before or frac_array(hist.tolist()).tolist() != hist_before):
+                    # (the caller keeps using both: shallow fusion hands ONE index tensor to two models, the prefix search a view of its lengths)
+                    kind, got = "modifies", f"the caller's index tensor in place: {idx_before} became {[int(v_) for v_ in np.asarray(idx).reshape(-1).tolist()]}"
                 want = np.stack([padded[i_: i_ + N - 1, b_] for b_, i_ in enumerate(iv)], 1)
                 ok = kind == "return" and hasattr(got, "shape") and tuple(got.shape) == (N - 1, B) and [[int(v_) for v_ in r_] for r_ in np.asarray(got).tolist()] == want.tolist()
                 if not ok and bad is None:
